@@ -216,6 +216,21 @@ class ImplWorld:
                 n.rename(data)
             else:
                 n.set_data(data, **kw)
+        elif k == "w.filter":
+            from props.c08 import make_pred
+
+            class _Ser:  # adapter: verdict tables are keyed by model node ids
+                def __init__(self, bij):
+                    self.bij = bij
+
+                def of(self, node):
+                    return self.bij.i2m.get(id(node))
+
+            pred = make_pred(op["v"], _Ser(op["_bij"]))
+            if not op["n"] and op.get("tree_api", True):
+                t.filter(pred)
+            else:
+                self.node(op["t"], op["n"]).filter(pred)
         elif k == "w.meta":
             n = self.node(op["t"], op["n"])
             kind = op["kind"]
